@@ -23,7 +23,13 @@ const MISSING: &[u8] = b".";
 
 impl<'l> Record<'l> {
     pub(super) fn try_new(src: &'l [u8]) -> io::Result<Self> {
-        Fields::try_new(src).map(Self)
+        let record = Fields::try_new(src).map(Self)?;
+
+        // `gff::feature::Record::attributes` cannot report an error, so invalid attributes are
+        // rejected here.
+        record.attributes()?;
+
+        Ok(record)
     }
 
     /// Returns the reference sequence name.
